@@ -432,6 +432,9 @@ pub struct Shape {
     pub d: Vec<Interned<str>>,
     pub e: Vec<Interned<[u8]>>,
     pub f: Option<Interned<Pt>>,
+    /// handles of two types whose values feed the same stream to the hasher
+    pub g: Vec<Interned<u32>>,
+    pub h: Vec<Interned<Wrap>>,
 }
 
 fn gen_shape(t: &mut Tape<'_>, i: &Interner) -> (Shape, usize) {
@@ -447,15 +450,21 @@ fn gen_shape(t: &mut Tape<'_>, i: &Interner) -> (Shape, usize) {
     let c = i.intern(cv);
     let nd = t.idx(4);
     let d = (0..nd)
-        .map(|_| i.intern_unsized::<str, Box<str>>(format!("u{}", t.idx(dom)).into_boxed_str()))
+        // the same texts as the `Interned<String>` handles: `String` and `str`
+        // feed the same stream to the hasher
+        .map(|_| i.intern_unsized::<str, Box<str>>(format!("s{}", t.idx(dom)).into_boxed_str()))
         .collect();
     let ne = t.idx(4);
     let e = (0..ne)
         .map(|_| i.intern_unsized::<[u8], Box<[u8]>>(vec![t.idx(dom) as u8; 3].into_boxed_slice()))
         .collect();
     let f = if t.chance(128) { Some(i.intern(Pt { a: t.idx(dom) as u8, b: "x".into() })) } else { None };
+    let ng = t.idx(3);
+    let g = (0..ng).map(|_| i.intern(t.idx(dom) as u32)).collect();
+    let nh = t.idx(3);
+    let h = (0..nh).map(|_| i.intern(Wrap(t.idx(dom) as u32))).collect();
     let repeats = na + 1 + nb + nc;
-    (Shape { a, b: (b0, bm), c, d, e, f }, repeats)
+    (Shape { a, b: (b0, bm), c, d, e, f, g, h }, repeats)
 }
 
 fn all_s(sh: &Shape) -> Vec<&S> {
